@@ -216,4 +216,23 @@ theorem threadMesh_radii (dMin dMaj pitch length : ℝ) (segments : Nat) (li lo 
     ∀ p ∈ m.points, (dMin / 2) ^ 2 ≤ p.x ^ 2 + p.y ^ 2 ∧ p.x ^ 2 + p.y ^ 2 ≤ (dMaj / 2) ^ 2 :=
   ThreadLemmas.threadMesh_radii dMin dMaj pitch length segments li lo left m h h0 h1 hli
 
+/-- **C16, helix and hand.** Step `j` of the builder writes its root-line vertex (index `4(j+1)+2`) on the
+minor radius at angle `±(j+1)·360/segments` degrees — `+` (counter-clockwise going up) for a right-hand
+thread, `−` (clockwise) for a left-hand one — and at height `j · zStep`, `zStep = threadLength/nSteps`. -/
+theorem threadMesh_helix (dMin dMaj pitch length : ℝ) (segments : Nat) (li lo : ℝ) (left : Bool) (m : Mesh ℝ)
+    (h : threadMesh dMin dMaj pitch length segments li lo left = some m) :
+    ∃ nSteps, 2 ≤ nSteps ∧
+      nSteps = HasTrunc.trunc ((length - lit 7 / lit 10 * pitch) / pitch * (cast segments : ℝ)) ∧
+      ∀ j, j < nSteps - 1 → m.points[4 * (j + 1) + 2]? =
+        some (ThreadLemmas.rootPoint dMin segments left ((length - lit 7 / lit 10 * pitch) / (cast nSteps : ℝ)) j) :=
+  ThreadLemmas.threadMesh_helix dMin dMaj pitch length segments li lo left m h
+
+/-- **C16, one pitch per revolution** (within the one-step rounding of the step count): `segments`
+steps lift the thread by `segments · zStep`, and `pitch ≤ segments · zStep < pitch · (1 + 1/nSteps)`. -/
+theorem pitch_per_turn (pitch threadLength : ℝ) (segments : Nat) (hp : 0 < pitch) (hs : 0 < segments)
+    (nSteps : Nat) (hn : nSteps = ⌊threadLength / pitch * (segments : ℝ)⌋₊) (hpos : 1 ≤ nSteps) :
+    pitch ≤ (segments : ℝ) * (threadLength / (nSteps : ℝ)) ∧
+      (segments : ℝ) * (threadLength / (nSteps : ℝ)) * (nSteps : ℝ) < pitch * ((nSteps : ℝ) + 1) :=
+  ThreadLemmas.pitch_per_turn pitch threadLength segments hp hs nSteps hn hpos
+
 end ScadVerif.C16
